@@ -62,6 +62,11 @@ var cfgRows = []CfgRow{
 	{1, 3, 0.2, 1, 0, 1, 0, false},
 	{5, 1, 0.5, 1, 2, 1.5, 2, false},
 	{8, 3, 0.2, 3, 8, 1, 1, true},
+	// boundary values of the options
+	{6, 3, 0.0, 15, 0, 1, 0, false}, // survival threshold 0: only the champion of a species breeds
+	{6, 1, 0.2, 0, 0, 1, 1, false},  // drop-off age 0
+	{6, 3, 0.2, 3, 20, 1, 2, true},  // more babies to steal than there are organisms
+	{5, 1, 0.5, 3, 0, 0, 3, false},  // age significance 0: every young species' fitness is wiped out
 }
 
 const quickCfgRows = 12
@@ -785,7 +790,12 @@ func (r *popRun) checkQuotas(pre *preEpoch, pop *genetics.Population, epoch int)
 		ref := math.NaN()
 		for _, o := range mem {
 			f := pre.fit[o]
-			if f > 0 {
+			if f > 0 && wantFactor == 0 {
+				if o.Fitness != 0 {
+					r.violate("C09", "age-adjustment", fmt.Sprintf("species %d: age significance 0 applies (age %d) but the adjusted fitness is %g", s.Id, pre.spAge[s.Id], o.Fitness), epoch)
+					return
+				}
+			} else if f > 0 {
 				k := o.Fitness * float64(len(mem)) / f
 				if !(k > 0) || math.IsInf(k, 0) {
 					r.violate("C09", "fitness-sharing", fmt.Sprintf("species %d: adjusted fitness %g for original %g is not a positive multiple", s.Id, o.Fitness, f), epoch)
@@ -886,6 +896,13 @@ func (r *popRun) checkChampions(pre *preEpoch, pop *genetics.Population, epoch i
 				ok = true
 				break
 			}
+		}
+		if !ok && r.opts.AgeSignificance == 0 && pre.spAge[s.Id] <= 10 {
+			// known finding: with AgeSignificance 0 the adjusted fitness of every member of a young species is 0,
+			// the species is sorted on that value, and the clone is taken from whichever member ends up first
+			r.violate("C10", "champion-lost@age-significance-zero", fmt.Sprintf("species %d (age %d) had quota %d; with AgeSignificance 0 all adjusted fitness values are 0 and the clone was not taken from the fittest organism %s",
+				s.Id, pre.spAge[s.Id], s.ExpectedOffspring, pre.champDesc[s]), epoch)
+			return
 		}
 		if !ok {
 			r.violate("C10", "champion-lost", fmt.Sprintf("species %d had quota %d but no organism of the next generation carries an unmodified copy of its champion %s",
